@@ -1589,10 +1589,40 @@ func (e *Engine) zeroSlice(st *State, et types.Type, ref *Term) {
 				return
 			}
 			// havoc'd array: restore zero region for this ref via an uninterpreted "zero-fill"
-			st.mem[key] = App("zerofill!"+a.S.key(), a.S, a, ref)
-			st.note("zerofill after havoc (imprecise): " + key)
+			st.mem[key] = preciseZeroFill(st, key, a, ref)
 		}
 	})
+}
+
+
+// preciseZeroFill: array a (already havoc'd, so reads at fresh references are not known to be zero) with the cells of
+// the new object ref reset to zero and every other cell unchanged.
+func preciseZeroFill(st *State, key string, a *Term, ref *Term) *Term {
+	w := a.S.Idx.W
+	nw := FreshVar("Hz|"+key, a.S)
+	j := Bound("j", BV(w))
+	lead := j
+	if w > 64 {
+		lead = Extract(w-1, w-64, j)
+	}
+	var zero *Term
+	switch a.S.Elem.Kind {
+	case SBV:
+		zero = BVConst(0, a.S.Elem.W)
+	case SBool:
+		zero = False
+	case SReal:
+		zero = RealConst(new(big.Rat))
+	}
+	own := Eq(lead, ref)
+	var body *Term
+	if zero != nil {
+		body = Eq(Select(nw, j), Ite(own, zero, Select(a, j)))
+	} else {
+		body = Or(own, Eq(Select(nw, j), Select(a, j)))
+	}
+	st.assume(Forall([]*Term{j}, body))
+	return nw
 }
 
 func sizeofType(T types.Type) int64 {
@@ -1738,8 +1768,7 @@ func (e *Engine) mapReset(st *State, T types.Type, ref *Term) {
 			if pristineBase(a) {
 				continue
 			}
-			st.mem[k] = App("zerofill!"+a.S.key(), a.S, a, ref)
-			st.note("map zerofill after havoc (imprecise): " + k)
+			st.mem[k] = preciseZeroFill(st, k, a, ref)
 		}
 	}
 }
